@@ -218,6 +218,12 @@ func RunCase(t *testing.T, c *Case, work, sched *choice.Source, st *Stats) (fs [
 	obj := &castObj{w: w, h: h, aa: aa, stream: work.Intn(6), salt: work.U64(), yieldEvery: uint64([]int{0, 1, 3, 17}[work.Intn(4)])}
 	cam := render3d.NewCameraAt(model3d.XYZ(0.3+work.Float(), -4, 0.5), model3d.XYZ(0, 0, work.Float()), fov)
 	obj.origin = cam.Origin
+	gmp := 1 + work.Intn(8)
+	// (drawn last so that recorded tapes keep their meaning) a sample budget
+	// below the minimum: early stopping is configured but can never fire
+	if work.Chance(1, 6) {
+		minSamples = numSamples + 1 + work.Intn(100)
+	}
 	obj.hist = make([][]sample, w*h)
 	maxX, maxY := float64(w)-1, float64(h)-1
 	caster := cam.Caster(maxX, maxY)
@@ -262,7 +268,7 @@ func RunCase(t *testing.T, c *Case, work, sched *choice.Source, st *Stats) (fs [
 	st.Desc = fmt.Sprintf("%s %dx%d workers=%d NumSamples=%d MinSamples=%d MaxStddev=%g Oversat=%g conv=%d antialias=%g stream=%d log=%v",
 		names[renderer], w, h, workers, numSamples, minSamples, maxStddev, oversat, convKind, aa, obj.stream, logf)
 	hasConv := renderer != 2 && minSamples != 0 && (maxStddev != 0 || conv != nil)
-	runtime.GOMAXPROCS(1 + work.Intn(8))
+	runtime.GOMAXPROCS(gmp)
 	res := simsched.Run(t, simsched.Config{Src: sched, Sticky: sticky, Knobs: map[string]int{"render.workers": workers}}, func() {
 		switch renderer {
 		case 0, 1:
@@ -352,6 +358,9 @@ func RunCase(t *testing.T, c *Case, work, sched *choice.Source, st *Stats) (fs [
 	}
 	if st.EarlyStops > 0 {
 		st.probe("early stop fired")
+	}
+	if hasConv && minSamples > numSamples {
+		st.probe("MinSamples above NumSamples with a convergence check")
 	}
 	if st.EarlyStops == w*h {
 		st.probe("every pixel stopped early")
